@@ -93,7 +93,7 @@ Section Sim.
       simpl in U; try contradiction; try (simpl; auto; fail).
     destruct U as [<- HR1].
     destruct (parse_head hd) as [[[[m t] v] h0]|]; [|simpl; auto].
-    destruct (can_keep_alive m v h0) as [ka|]; [|simpl; auto].
+    destruct (can_keep_alive (no_keep_alive c) m v h0) as [ka|]; [|simpl; auto].
     destruct (d_headers dl h0) as [h act].
     destruct (host_check v h); [|simpl; auto].
     destruct (body_plan (eff_max_body c) h) as [[|n|]|]; [| | |simpl; auto].
@@ -192,16 +192,17 @@ Proof. destruct b; reflexivity. Qed.
 Section Inv.
   Context {S : Type} (ops : sops S) (dl : dlg) (c : cfg).
 
-  Lemma finish_body_shape m t v hs data dr (bs : bstat S) ka :
-    let r := finish_body (EvReq m t v hs) data dr bs ka in
+  Lemma finish_body_shape pre0 data dr (bs : bstat S) ka :
+    no_terminal pre0 = true ->
+    let r := finish_body pre0 data dr bs ka in
     match snd r with
     | Some _ => no_terminal (fst r) = true
     | None => well_terminated (fst r) = true
     end.
   Proof.
-    unfold finish_body.
-    assert (P : no_terminal (EvReq m t v hs :: body_ev data) = true)
-      by (simpl; apply body_ev_nt).
+    intros NT0. unfold finish_body.
+    assert (P : no_terminal (pre0 ++ body_ev data) = true)
+      by (rewrite no_terminal_app, NT0, body_ev_nt; reflexivity).
     destruct dr; cbn [fst snd]; try (apply wt_app; [exact P|reflexivity]);
       destruct bs; cbn [fst snd]; try (apply wt_app; [exact P|reflexivity]);
       unfold next; destruct ka; cbn [fst snd];
@@ -217,15 +218,16 @@ Section Inv.
     unfold serve_msg.
     destruct (rd_regex ops (max_header c) st) as [hd t1| |]; try reflexivity.
     destruct (parse_head hd) as [[[[m t] v] h0]|]; [|reflexivity].
-    destruct (can_keep_alive m v h0) as [ka|]; [|reflexivity].
+    destruct (can_keep_alive (no_keep_alive c) m v h0) as [ka|]; [|reflexivity].
     destruct (d_headers dl h0) as [h act].
     destruct (host_check v h); [|reflexivity].
-    destruct (body_plan (eff_max_body c) h) as [[|n|]|]; [| | |reflexivity].
-    - apply finish_body_shape.
+    assert (NT : no_terminal (req_evs m t v h) = true) by (unfold req_evs; destruct (expects_continue h); reflexivity).
+    destruct (body_plan (eff_max_body c) h) as [[|n|]|]; [| | |cbn [fst snd]; apply wt_app; [exact NT|reflexivity]].
+    - apply finish_body_shape. exact NT.
     - destruct (rd_body ops (chunk_pred c) n t1) as [cs ob].
-      destruct (d_data dl act cs) as [data dr]. apply finish_body_shape.
+      destruct (d_data dl act cs) as [data dr]. apply finish_body_shape. exact NT.
     - destruct (read_chunked ops c _ _ _ t1) as [cs bs].
-      destruct (d_data dl act cs) as [data dr]. apply finish_body_shape.
+      destruct (d_data dl act cs) as [data dr]. apply finish_body_shape. exact NT.
   Qed.
 
   Lemma serve_loop_wt fuel : forall st, well_terminated (serve_loop ops dl c fuel st) = true.
